@@ -11,7 +11,7 @@ from vf.props import _family
 
 PROFILES = "finalizer".split(',')
 CFGS = "finalizer,mixed_q".split(',')
-NEGATIVES = {'mixed_w': 'NoHeldByDaemon'}       # witness: a state in which the daemon alone holds the object is reachable
+NEGATIVES = {'mixed_w': 'NoHeldByDaemon', 'neg_f38': 'NoF38'}       # witness: a state in which the daemon alone holds the object is reachable
 FEATURES = set("finalizer-write,conflict-422,delete,foreign-finalizer".split(','))
 
 
@@ -27,6 +27,9 @@ def run(ctx, rep) -> None:
         scs += H.gen_scenarios(ctx.seed, n // len(PROFILES), p)
     # the histories in which F30 was found (a finalizer removal decided on an unmatched view, 422, carried into a matching one)
     scs += [sc_ for sc_ in H.gen_scenarios(0, 1700, 'finalizer') if sc_['id'] in ('finalizer-0-577', 'finalizer-0-1641')]
+    # the history in which F38 was found (thorough tier of C02): a removal decided on an older, unmatched view goes out behind a merge-patch
+    # of the same cycle, whose answer -- not the view -- is what the JSON-patch's version test compares with (known finding)
+    scs += [dict(sc_, id='crafted-f38') for sc_ in H.gen_scenarios(0, 700, 'progress') if sc_['id'] == 'progress-0-670']
     # change handlers AND daemons on the same object: the finalizer is held for both (Handling.tla with conf.dh)
     scs += H.gen_scenarios(ctx.seed, 60 if ctx.quick else 1200, 'mixed')
     _family.run_traces(rep, scs, '+'.join(PROFILES), nontrivial=lambda f: bool(f & FEATURES))
